@@ -17,7 +17,7 @@ type c18Feat struct {
 	datatable  string // datatable attribute ("" = absent)
 	nested     bool
 	rows, cols int
-	header     int // 0 none, 1 caption(with text), 2 thead, 3 tfoot, 4 colgroup, 5 col, 6 th(with text)
+	header     int // 0 none, 1 caption(with text), 2 thead, 3 tfoot, 4 colgroup, 5 col, 6 th(with text), 7 empty caption + thead, 8 blank caption + th(with text), 9 empty caption + col
 	cellAttr   int // 0 none, 1 abbr, 2 headers, 3 scope, 4 lone <abbr> child
 	summary    bool
 	cells      int
@@ -88,6 +88,12 @@ func c18Table(f c18Feat, cellsPerRow []int) string {
 	switch f.header {
 	case 1:
 		sb.WriteString("<caption>capt</caption>")
+	case 7:
+		sb.WriteString("<caption></caption><thead><tr><td>h</td><td>h</td></tr></thead>")
+	case 8:
+		sb.WriteString("<caption>  </caption>")
+	case 9:
+		sb.WriteString("<caption></caption><colgroup><col></colgroup>")
 	case 4:
 		sb.WriteString("<colgroup></colgroup>")
 	case 5:
@@ -106,7 +112,7 @@ func c18Table(f c18Feat, cellsPerRow []int) string {
 			switch {
 			case r == 0 && c == 0:
 				sb.WriteString(`<td colspan="Y" role="C">a</td>`)
-			case r == 0 && c == 1 && f.header == 6:
+			case r == 0 && c == 1 && (f.header == 6 || f.header == 8):
 				sb.WriteString("<th>head</th>")
 			case r == 1 && c == 0 && f.cellAttr == 1:
 				sb.WriteString(`<td abbr="x">b</td>`)
@@ -252,7 +258,7 @@ func HarnessC18Structure() {
 	f := c18Feat{}
 	f.nested = vx.Choose("nested", 2) == 1
 	// menus are ordered so that a prefix (quick tier) keeps the most distinct members
-	f.header = []int{0, 6, 2, 1, 5, 3, 4}[vx.Choose("header", vx.Param("headers", 7))]
+	f.header = []int{0, 6, 2, 1, 7, 8, 5, 3, 4, 9}[vx.Choose("header", vx.Param("headers", 10))]
 	f.cellAttr = []int{0, 4, 1, 2, 3}[vx.Choose("cellattr", vx.Param("cellattrs", 5))]
 	f.summary = vx.Choose("summary", 2) == 1
 	f.object = []int{0, 4, 1, 2, 3}[vx.Choose("object", vx.Param("objects", 5))]
@@ -263,23 +269,25 @@ func HarnessC18Structure() {
 	rs := vx.NondetStringIn("rowspan", maxDigits, "0123456789")
 	cs := vx.NondetStringIn("colspan", maxDigits, "0123456789")
 	var cellsPerRow []int
-	switch vx.Choose("size", 3) {
+	switch vx.Choose("size", 4) {
 	case 0:
 		cellsPerRow = []int{2, 2}
 	case 1:
 		cellsPerRow = []int{4, 3, 3}
 	case 2:
 		cellsPerRow = []int{4, 4, 3}
+	case 3: // tall: 21 one-cell rows, then a wider row
+		cellsPerRow = []int{1, 2, 1, 1, 1, 1, 1, 1, 1, 1, 1, 1, 1, 1, 1, 1, 1, 1, 1, 1, 1, 2}
 	}
 	f.rows = c18Span(rs) + len(cellsPerRow) - 1
-	if f.header == 2 || f.header == 3 {
+	if f.header == 2 || f.header == 3 || f.header == 7 {
 		f.rows++ // the thead/tfoot row
 	}
 	if f.nested {
 		f.rows++ // GetElementsByTagName counts the nested table's row too (irrelevant: nested decides first)
 	}
 	row0 := c18Span(cs) + cellsPerRow[0] - 1
-	if f.header == 6 {
+	if f.header == 6 || f.header == 8 {
 		row0-- // one cell of the first row is a <th>, which the column counter does not count
 	}
 	f.cols = row0
@@ -288,16 +296,16 @@ func HarnessC18Structure() {
 			f.cols = n
 		}
 	}
-	if (f.header == 2 || f.header == 3) && f.cols < 2 {
+	if (f.header == 2 || f.header == 3 || f.header == 7) && f.cols < 2 {
 		f.cols = 2
 	}
 	for _, n := range cellsPerRow {
 		f.cells += n
 	}
-	if f.header == 6 {
+	if f.header == 6 || f.header == 8 {
 		f.cells--
 	}
-	if f.header == 2 || f.header == 3 {
+	if f.header == 2 || f.header == 3 || f.header == 7 {
 		f.cells += 2
 	}
 	c18Run(f, cellsPerRow, rs, cs, "structure")
